@@ -1087,7 +1087,7 @@ func report(r *hx.Run, c *caseT, res *result) string {
 
 func main() {
 	r := hx.New("C07")
-	r.Rule = "every element of key spec x format x signer kind x target x user metadata x expiry duration x signing agent is signed once by the real signing API and the bytes verified once by the real verification API; plus one notation.SignOCI -> in-memory repository -> notation.Verify trip per (key spec, format); non-trivial = distinct tuples whose round trip succeeded (signature produced, verification succeeded), the only cases in which the reporting oracle is evaluated"
+	r.Rule = "phase 1 (sequential, fresh process): for every key spec x format x signer kind x failing call {SignBlob, VerifyBlob} x failure point {0, half, all-but-one bytes} x delivery of the follow-up, a blob call whose reader fails is followed by an honest sign->verify round trip of the same signer and verifier instances; phase 2 (parallel): every element of key spec x format x signer kind x (32 OCI descriptors: annotations x every subset of urls/data/platform/artifactType | 8 blobs x 4 ways the readers deliver the bytes) x user metadata x expiry duration x signing agent is signed once by the real signing API and the bytes verified once by the real verification API; one notation.SignOCI -> in-memory repository -> notation.Verify trip per (key spec, format); instance reuse: every ordered pair of four configurations done by the same signer and verifier instances; non-trivial = distinct histories whose judged round trip succeeded (signature produced, verification succeeded), the only cases in which the reporting oracle is evaluated"
 	r.Assumptions = []string{
 		"RSASSA-PSS / ECDSA / SHA-2 of the Go standard library are correct (used by the scripted plugins, lib/refsig and the oracle's digest recomputation)",
 		"the scripted plugins are honest: they sign exactly the bytes handed to them with the hash named in the request and honour expiryDurationInSeconds",
@@ -1095,6 +1095,7 @@ func main() {
 		"a signing error for a legal input is reported as a violation (roundtrip/sign-failed): the statement presupposes that every supported key spec can sign",
 		"the envelope-generator contract has no signing-agent field: for that signer kind the agent dimension selects the plugin's envelope builder (lib/forge vs notation-core-go)",
 		"the descriptor returned by VerifyBlob is judged on media type, digest and size only; its annotations are recorded, not judged",
+		"the result of a call whose reader fails is recorded, not judged; only the honest round trip after it is judged (keys after-failed-read/...)",
 	}
 	w := buildWorld(r)
 
@@ -1180,7 +1181,7 @@ func main() {
 								if !r.Thorough() {
 									// quick: RSA-3072/4096 and the 1 MiB blob only on a diagonal of the remaining dimensions
 									// (1 in 4); OCI targets with a proper subset of the extra fields and blobs delivered in pieces on a
-									// diagonal too (1 in 3, combined 1 in 12; the 1 MiB blob in pieces 1 in 24)
+									// diagonal too (1 in 6, combined 1 in 24; the 1 MiB blob in pieces 1 in 48)
 									big := td.t.Blob && td.t.Size > 1<<20
 									pieces := td.t.Blob && td.d != "whole"
 									subset := !td.t.Blob && ti%16 != 0 && ti%16 != 15
@@ -1189,10 +1190,10 @@ func main() {
 										every = 4
 									}
 									if pieces || subset {
-										every *= 3
+										every *= 6
 									}
 									if big && pieces {
-										every = 24
+										every = 48
 									}
 									if (si+fi+ki+ti+mi+ei+ai)%every != 0 {
 										continue
